@@ -75,6 +75,8 @@ type SOp struct {
 	SF bool   `json:"sf,omitempty"`
 	VF bool   `json:"vf,omitempty"`
 	N  int    `json:"n,omitempty"`
+	// done / done1 only: the debug_logs text of the work-done message
+	Logs string `json:"logs,omitempty"`
 }
 
 // Session is one scripted conversation.
